@@ -64,10 +64,11 @@ const (
 	COne   // every 16-byte block is the integer 1: the batch sum is the plain sum of the scalars
 	CTwo   // every 16-byte block is the integer 2: all scalars of the equation may share the factor 2
 	CPow2  // every 16-byte block is the same power of two
+	CMid   // 16-byte blocks that differ in their lowest and highest three bytes only: randomisers sharing their middle limbs
 	nContent
 )
 
-var contentNames = []string{"uniform", "zero", "ones", "repeat16", "sparse", "ramp", "onebit", "small", "one", "two", "pow2"}
+var contentNames = []string{"uniform", "zero", "ones", "repeat16", "sparse", "ramp", "onebit", "small", "one", "two", "pow2", "sharedmid"}
 
 // ReadFault describes one Read call of the device (by index; stalls do not
 // advance the index).
@@ -175,6 +176,10 @@ func (d *Device) contentByte(k int) byte {
 			return 1 << uint(bit%8)
 		}
 		return 0
+	case CMid:
+		if j := k % 16; j >= 3 && j < 13 {
+			return d.block[j]
+		}
 	case CSmall:
 		if k%16 == 0 {
 			return byte(mix64(d.plan.CSeed^uint64(k))%255) + 1
